@@ -104,12 +104,21 @@ def fpow(F, a):
 
 
 class Instance:
-    def __init__(self, kind, rng):
+    def __init__(self, kind, rng, side=None):
+        """side: on which side of the 1e6-entry threshold of the automatic rules the operator lies ("small": n <= 1000 -- still
+        hundreds of times more entries than the factors store -- or "large": n > 1000; None: either)."""
         self.kind = kind
         if kind in ("Kronecker", "KronSum", "KronDiag", "KronScaled", "KronPlusDiag"):
             nf = int(rng.integers(2, 5))
-            sizes = {2: [int(rng.integers(24, 40)), int(rng.integers(24, 40))], 3: [int(rng.integers(9, 14)) for _ in range(3)],
-                     4: [int(rng.integers(5, 8)) for _ in range(4)]}[nf]
+            if side == "small":
+                sizes = {2: [int(rng.integers(24, 32)), int(rng.integers(24, 32))], 3: [int(rng.integers(8, 11)) for _ in range(3)],
+                         4: [5, 5, int(rng.integers(5, 7)), int(rng.integers(5, 7))]}[nf]
+            elif side == "large":
+                sizes = {2: [int(rng.integers(32, 40)), int(rng.integers(32, 40))], 3: [int(rng.integers(11, 14)) for _ in range(3)],
+                         4: [int(rng.integers(6, 8)) for _ in range(4)]}[nf]
+            else:
+                sizes = {2: [int(rng.integers(24, 40)), int(rng.integers(24, 40))], 3: [int(rng.integers(9, 14)) for _ in range(3)],
+                         4: [int(rng.integers(5, 8)) for _ in range(4)]}[nf]
             self.Fs = [spd(rng, s) for s in sizes]
             self.n = int(np.prod(sizes))
             self.storage = sum(s * s for s in sizes)
@@ -138,13 +147,19 @@ class Instance:
             b = int(rng.integers(2, 4))
             sizes = [int(rng.integers(3, 9)) for _ in range(b)]
             self.mults = [int(rng.integers(40, 120)) for _ in range(b)]
+            if side == "small":
+                b, sizes = 3, [int(rng.integers(4, 6)) for _ in range(3)]
+                self.mults = [int(rng.integers(45, 61)) for _ in range(3)]
+            elif side == "large":
+                b, sizes = 3, [int(rng.integers(5, 9)) for _ in range(3)]
+                self.mults = [int(rng.integers(70, 120)) for _ in range(3)]
             self.Fs = [spd(rng, s) for s in sizes]
             self.n = sum(s * m for s, m in zip(sizes, self.mults))
             self.storage = sum(s * s for s in sizes)
             self.op = ops.BlockDiag(*[cola.PSD(ops.Dense(F)) for F in self.Fs], multiplicities=self.mults)
             self.mv = lambda X: blockdiag_mv(self.Fs, self.mults, X)
         elif kind in ("Diagonal", "ScalarMul", "Identity", "Permutation", "Tridiagonal"):
-            self.n = int(rng.integers(2000, 4000))
+            self.n = int(rng.integers(2000, 4000)) if side != "small" else int(rng.integers(600, 1001))
             self.storage = self.n
             if kind == "Diagonal":
                 self.d = 1.0 + rng.random(self.n)
@@ -193,11 +208,12 @@ ALG_VARIANTS = {"inv": ["omitted", "Auto", "LU", "Cholesky"], "solve": ["omitted
 
 def gen(tier, rng, shard, nshards):
     combos = [(k, e, a) for k in ENTRY for e in ENTRY[k] for a in ALG_VARIANTS.get(e, ["-"])]
-    reps = 1 if tier == "quick" else 4
+    reps = 2 if tier == "quick" else 6
     for r in range(reps):
         for i, (k, e, a) in enumerate(combos):
             if (i + r) % nshards == shard:
-                yield {"kind": k, "entry": e, "alg": a, "seed": S.seed(rng)}
+                # both sides of the 1e6-entry threshold at which the automatic rules change their choice
+                yield {"kind": k, "entry": e, "alg": a, "seed": S.seed(rng), "side": ["small", "large", None][r % 3]}
 
 
 def algs(name):
@@ -211,7 +227,8 @@ def run_case(ctx, case):
     TAP.install()
     DISPATCH.install()
     rng = P.rng_for("c19", case["seed"])
-    inst = Instance(case["kind"], rng)
+    inst = Instance(case["kind"], rng, case.get("side"))
+    ctx.count("side_of_1e6_entries", "n<=1000" if inst.n <= 1000 else "n>1000")
     n = inst.n
     A = inst.op
     e = case["entry"]
